@@ -221,5 +221,122 @@ func init() {
 		return "[" + strings.Join(hs, ",") + "]"
 	})
 
-	_ = check.FileEventCreated
+	// case: "<root hex> <files L|D<relhex>,..> <cur rel hex> <refs r|d<hex>,..> <events c|d<relhex>,..|->"
+	// a real AllProject over a real directory: first analysis, then one HandleFileEventChanges per event;
+	// after each: per reference of cur  err6:valid:{loaded}:{definition files}:{hover candidates}
+	register("c18.project", func(line string) string {
+		f := strings.Fields(line)
+		t, err := c18MakeTree(f[0], f[1])
+		if err != nil {
+			return "SETUP-ERROR " + err.Error()
+		}
+		defer t.cleanup()
+		curRel := string(unhex(f[2]))
+		cur := t.root + "/" + curRel
+		type ref struct {
+			kind byte
+			s    string
+			col  int
+			off  int
+		}
+		refs := []ref{}
+		src := ""
+		for i, r := range c18Split(f[3]) {
+			s := string(unhex(r[1:]))
+			pre := fmt.Sprintf("local m%d = require(\"", i)
+			if r[0] == 'd' {
+				pre = "dofile(\""
+			}
+			refs = append(refs, ref{r[0], s, len(pre), len(src) + len(pre)})
+			src += pre + s + "\")\n"
+		}
+		if err := os.MkdirAll(filepath.Dir(cur), 0o755); err != nil {
+			return "SETUP-ERROR " + err.Error()
+		}
+		if err := os.WriteFile(cur, []byte(src), 0o644); err != nil {
+			return "SETUP-ERROR " + err.Error()
+		}
+		common.GlobalConfigDefautInit()
+		common.GConfig.IntialGlobalVar()
+		flags := make([]bool, 64)
+		for i := range flags {
+			flags[i] = true
+		}
+		dm := common.GConfig.GetDirManager()
+		dm.SetVSRootDir(t.root)
+		if err := common.GConfig.ReadConfig(t.root, "luahelper.json", flags, nil, nil); err != nil {
+			return "CONFIG-ERROR " + err.Error()
+		}
+		common.GConfig.InsertIngoreSystemModule()
+		common.GConfig.InsertIngoreSystemAnnotateType()
+		dm.InitMainDir()
+		project := check.CreateAllProject(dm.GetMainDirFileList(), nil, nil)
+		project.HandleCheck()
+
+		observe := func() string {
+			fs, _ := project.GetFirstFileStuct(cur)
+			if fs == nil || fs.FileResult == nil {
+				return "NO-RESULT"
+			}
+			fr := fs.FileResult
+			if len(fr.ReferVec) != len(refs) {
+				return fmt.Sprintf("REFS=%d", len(fr.ReferVec))
+			}
+			out := []string{}
+			for i, r := range refs {
+				e6 := false
+				for _, e := range fr.CheckErrVec {
+					if e.ErrType == common.CheckErrorNoFile && e.Loc.StartLine == i+1 {
+						e6 = true
+					}
+				}
+				ri := fr.ReferVec[i]
+				loaded := map[string]bool{}
+				if ri.Valid && ri.ReferValidStr != "" {
+					loaded[c18Rel(t.root, ri.ReferValidStr)] = true
+				}
+				defs, hovs := map[string]bool{}, map[string]bool{}
+				for rep := 0; rep < 6; rep++ {
+					list := stringutil.GetOpenFileStr([]byte(src), r.off, r.col, common.GConfig.GetFrameReferFiles())
+					for _, item := range list {
+						dv := project.FindOpenFileDefine(cur, item)
+						if len(dv) > 0 {
+							defs[c18Rel(t.root, dv[0].StrFile)] = true
+							hovs[hx([]byte(item))] = true
+							break
+						}
+					}
+				}
+				// do definition and analysis agree? (same single file, or neither has one)
+				agree := len(defs) == len(loaded)
+				for k := range loaded {
+					if !defs[k] {
+						agree = false
+					}
+				}
+				out = append(out, b2s(e6)+":"+b2s(ri.Valid)+":"+c18Set(loaded)+":"+c18Set(defs)+":"+c18Set(hovs)+":{"+b2s(agree)+"}")
+			}
+			return strings.Join(out, ",")
+		}
+
+		steps := []string{observe()}
+		for _, ev := range c18Split(f[4]) {
+			abs := t.root + "/" + string(unhex(ev[1:]))
+			typ := check.FileEventCreated
+			if ev[0] == 'c' {
+				if err := os.MkdirAll(filepath.Dir(abs), 0o755); err != nil {
+					return "SETUP-ERROR " + err.Error()
+				}
+				if err := os.WriteFile(abs, []byte("return {}\n"), 0o644); err != nil {
+					return "SETUP-ERROR " + err.Error()
+				}
+			} else {
+				os.Remove(abs)
+				typ = check.FileEventDeleted
+			}
+			project.HandleFileEventChanges([]check.FileEventStruct{{StrFile: abs, Type: typ}})
+			steps = append(steps, observe())
+		}
+		return strings.Join(steps, ";")
+	})
 }
